@@ -131,6 +131,10 @@ func (x *Exec) invokeDispatch(st *State, fr *Frame, in ssa.Instruction, c *ssa.C
 	if !ok || iv.Sym == nil {
 		return false
 	}
+	// only interfaces declared in the repository: a value of `error`, io.Reader, ... usually holds a foreign type
+	if n, ok := c.Value.Type().(*types.Named); !ok || n.Obj().Pkg() == nil || !strings.HasPrefix(n.Obj().Pkg().Path(), modPath) {
+		return false
+	}
 	cands := x.W.implementers(it)
 	if len(cands) == 0 {
 		return false
